@@ -337,9 +337,9 @@ pub fn plan(tier: Tier) -> Plan {
     checks.push(sweep::<H1>("const-width"));
     checks.push(sweep::<H3>("const-width"));
     let q = tier == Tier::Quick;
-    checks.push(hist::<H1>("edge-lattice", if q { 3 } else { 4 }));
-    checks.push(hist::<H2>("edge-lattice", if q { 2 } else { 3 }));
-    checks.push(hist::<H3>("edge-lattice", 2));
+    checks.push(hist::<H1>("edge-lattice", if q { 4 } else { 5 }));
+    checks.push(hist::<H2>("edge-lattice", 3));
+    checks.push(hist::<H3>("edge-lattice", if q { 2 } else { 3 }));
     checks.push(hist::<H3>("lattice3", if q { 3 } else { 4 }));
     checks.push(hist::<H4>("lattice3", if q { 2 } else { 3 }));
     if !q {
